@@ -21,7 +21,7 @@
 //! the Lean model (`C14 inv`); `C14 run` lets the model execute the same queries under a schedule chosen here
 //! and compares answers and final cache contents.
 
-use crate::c13::{self, Oracle, RecSpec, RowSpec};
+use crate::c13::{self, ExtraV, Oracle, RecSpec, RowSpec};
 use crate::ctx::{CaseOut, Ctx};
 use crate::rng::Rng;
 use crate::vx;
@@ -941,19 +941,19 @@ fn add_rel_rows(rng: &mut Rng, g: &mut c13::GenGraph) {
     }
     rows.push(RowSpec::plain("tagOn", vec![some("association")]));
     let mut tags = RowSpec::plain("tags", vec![some("association")]);
-    tags.extra = vec![("computedFromReciprocal".into(), None), ("reciprocalOf".into(), some("tagOn"))];
+    tags.extra = vec![("computedFromReciprocal".into(), ExtraV::Marker), ("reciprocalOf".into(), ExtraV::sym("tagOn"))];
     rows.push(tags);
     rows.push(RowSpec::plain("inputs", vec![some("relationship")]));
     let mut hot = RowSpec::plain("hotRef", vec![]);
-    hot.extra = vec![("inputs".into(), Some(pick(rng, g)))];
+    hot.extra = vec![("inputs".into(), ExtraV::Sym(pick(rng, g)))];
     rows.push(hot);
     let mut cold = RowSpec::plain("coldRef", vec![]);
-    cold.extra = vec![("inputs".into(), Some(pick(rng, g)))];
+    cold.extra = vec![("inputs".into(), ExtraV::Sym(pick(rng, g)))];
     rows.push(cold);
     // some defs are tagOn other defs
     for _ in 0..3 {
         let mut r = RowSpec::plain(&format!("prop{}", rng.below(1000)), vec![]);
-        r.extra = vec![("tagOn".into(), Some(pick(rng, g)))];
+        r.extra = vec![("tagOn".into(), ExtraV::List(vec![Some(pick(rng, g))]))];
         rows.push(r);
     }
     for r in rows {
